@@ -221,20 +221,35 @@ def wellformed(tn, problems=None, bound=None, where='root'):
     return problems
 
 
-def _refs(tn, out, path_of):
-    """Collect (access path, type set) of every reference occurrence."""
+def _refs(tn, out, path_of, scope=()):
+    """Collect (reference identity, type set) of every reference occurrence.  A reference is identified by
+    its access path plus, for paths rooted in a quantified variable, the binder: equally named variables of
+    sibling quantifiers are different references (the domain of a quantifier is outside its scope)."""
     node = _node(tn)
     tag = node[0]
     if tag in ('field', 'index', 'var'):
-        out.append((path_of(tn), _ty(tn)))
+        base = node
+        while base[0] in ('field', 'index'):
+            base = _node(base[1])
+        binder = None
+        if base[0] == 'var':
+            for name, ident in reversed(scope):
+                if name == base[1]:
+                    binder = ident
+                    break
+        out.append(((path_of(tn), binder), _ty(tn)))
+    if tag == 'quant':
+        _refs(node[3], out, path_of, scope)
+        _refs(node[4], out, path_of, scope + ((node[2], len(out)),))
+        return
     for x in node[1:]:
         if isinstance(x, tuple):
             if x and x[0] == 't':
-                _refs(x, out, path_of)
+                _refs(x, out, path_of, scope)
             else:
                 for y in x:
                     if isinstance(y, tuple) and y and y[0] == 't':
-                        _refs(y, out, path_of)
+                        _refs(y, out, path_of, scope)
 
 
 def predicate_invariant(lifted_pred):
